@@ -11,7 +11,7 @@ package babe
 //       IEEE f64 and returns floor(2^128 * p) exactly.  Division, subtraction and 1/n are exactly
 //       specified by IEEE-754; powf is not (libm).  The oracle re-derives the pipeline with
 //       math/big: c_f = RN(c1/c2), pp_f = RN(1-c_f), th_f = RN(1/n), y = pp_f^th_f evaluated with
-//       512-bit big.Float (n-th root by Newton, self-checked by raising to the n-th power, plus
+//       512-bit big.Float (n-th root by Newton; its last step is the residual x^n - a itself, plus
 //       the first/second order correction for th_f != 1/n), z = RN(y) +- j ulp, p = RN(1-z),
 //       T = floor(2^128 p).  The implementation must hit one of the candidates |j| <= 2 (last-ulp
 //       tolerance of two libm pow implementations; DESIGN C25 limitation: bit-exact agreement
@@ -43,148 +43,181 @@ const c25Prec = 512
 
 func c25F() *big.Float { return new(big.Float).SetPrec(c25Prec) }
 
-// c25PowInt is x^n by binary exponentiation at 512 bits.
-func c25PowInt(x *big.Float, n int) *big.Float {
-	res := c25F().SetInt64(1)
-	b := c25F().Set(x)
+// c25Scratch holds the temporaries of one worker (no allocation per element).
+type c25Scratch struct {
+	x, b, res, xn1, xn, num, den, delta, one, nf, t1, t2, y, tr *big.Float
+}
+
+func c25NewScratch() *c25Scratch {
+	return &c25Scratch{x: c25F(), b: c25F(), res: c25F(), xn1: c25F(), xn: c25F(), num: c25F(), den: c25F(), delta: c25F(),
+		one: c25F().SetInt64(1), nf: c25F(), t1: c25F(), t2: c25F(), y: c25F(), tr: c25F()}
+}
+
+// powInt: sc.res = x^n (binary exponentiation, 512-bit).
+func (sc *c25Scratch) powInt(x *big.Float, n int) *big.Float {
+	sc.res.SetInt64(1)
+	sc.b.Set(x)
 	for n > 0 {
 		if n&1 == 1 {
-			res.Mul(res, b)
+			sc.res.Mul(sc.res, sc.b)
 		}
 		n >>= 1
 		if n > 0 {
-			b.Mul(b, b)
+			sc.b.Mul(sc.b, sc.b)
 		}
 	}
-	return res
+	return sc.res
 }
 
-// c25Root returns a^(1/n) for 0 < a <= 1 at ~500 bits; ok=false if the self-check fails.
-func c25Root(a *big.Float, n int) (*big.Float, bool) {
+// root: sc.x = a^(1/n) for 0 < a <= 1 by Newton from a float64 seed.  The iteration stops when the
+// step is below 2^-236 relative; the step is (x^n - a)/(n x^(n-1)), i.e. the residual of the
+// defining equation itself, so a small last step is the proof that x^n = a to ~2^-226 relative
+// (the updated x is better still).  ok=false when that was not reached (harness error).
+func (sc *c25Scratch) root(a *big.Float, n int) bool {
 	if n == 1 {
-		return c25F().Set(a), true
+		sc.x.Set(a)
+		return true
 	}
 	a64, _ := a.Float64()
-	x := c25F().SetFloat64(math.Exp(math.Log(a64) / float64(n))) // seed only; verified below
-	nf := c25F().SetInt64(int64(n))
-	for it := 0; it < 12; it++ {
-		xn1 := c25PowInt(x, n-1)
-		xn := c25F().Mul(xn1, x)
-		num := c25F().Sub(xn, a)
-		den := c25F().Mul(nf, xn1)
-		delta := c25F().Quo(num, den)
-		x.Sub(x, delta)
-		if delta.Sign() == 0 || delta.MantExp(nil)-x.MantExp(nil) < -500 {
-			break
+	sc.x.SetFloat64(math.Exp(math.Log(a64) / float64(n))) // seed only
+	sc.nf.SetInt64(int64(n))
+	for it := 0; it < 10; it++ {
+		sc.xn1.Set(sc.powInt(sc.x, n-1))
+		sc.xn.Mul(sc.xn1, sc.x)
+		sc.num.Sub(sc.xn, a)
+		sc.den.Mul(sc.nf, sc.xn1)
+		sc.delta.Quo(sc.num, sc.den)
+		sc.x.Sub(sc.x, sc.delta)
+		if sc.delta.Sign() == 0 || sc.delta.MantExp(nil)-sc.x.MantExp(nil) < -(c25Prec/2-20) {
+			return true
 		}
 	}
-	// self-check: |x^n / a - 1| < 2^-470  (=> relative error of x below 2^-470 / n)
-	chk := c25F().Quo(c25PowInt(x, n), a)
-	chk.Sub(chk, c25F().SetInt64(1))
-	if chk.Sign() != 0 && chk.MantExp(nil) > -470 {
-		return x, false
-	}
-	return x, true
+	return false
 }
 
 var c25Two128 = new(big.Int).Lsh(big.NewInt(1), 128)
+var c25Max128 = new(big.Int).Sub(c25Two128, big.NewInt(1))
 
-// c25Floor128 is floor(2^128 * p) for 0 <= p <= 1.
+// c25Floor128 is floor(2^128 * p) for a big.Float 0 <= p <= 1.
 func c25Floor128(p *big.Float) *big.Int {
 	v := c25F().SetMantExp(p, 128)
 	i, _ := v.Int(nil) // truncation toward zero == floor for v >= 0
 	return i
 }
 
-// c25Nearest64 rounds to the nearest float64 (ties to even).
-func c25Nearest64(x *big.Float) float64 {
-	f, _ := x.Float64()
-	return f
-}
-
-type c25Oracle struct {
-	saturate   bool
-	trueT      *big.Int         // real-number formula, floor
-	cand       map[string]int   // candidate threshold (decimal) -> smallest |j| signed pow offset in ulps
-	hardCase   bool             // y is within 2^-20 ulp of a rounding boundary: the correctly rounded z is not certain
-	rootOK     bool
+// c25Floor128f is floor(2^128 * p) for a float64 0 <= p <= 1, exactly (p = m * 2^e).
+func c25Floor128f(p float64) *big.Int {
+	if p == 0 {
+		return new(big.Int)
+	}
+	fr, e := math.Frexp(p) // p = fr * 2^e, fr in [0.5,1)
+	m := new(big.Int).SetUint64(uint64(fr * (1 << 53)))
+	sh := 128 + e - 53
+	if sh >= 0 {
+		return m.Lsh(m, uint(sh))
+	}
+	return m.Rsh(m, uint(-sh))
 }
 
 const c25MaxJ = 4
 
-// c25Expect builds the oracle for (c1,c2,n), 1 <= c1 <= c2, n >= 1.
-func c25Expect(c1, c2 uint64, n int) c25Oracle {
-	var o c25Oracle
-	if c1 == c2 {
-		o.saturate = true
-		o.rootOK = true
-		return o
-	}
-	// real-number formula
-	a := c25F().Quo(c25F().SetUint64(c2-c1), c25F().SetUint64(c2))
-	root, ok := c25Root(a, n)
-	o.rootOK = ok
-	o.trueT = c25Floor128(c25F().Sub(c25F().SetInt64(1), root))
+// c25PairPre is what depends on (c1,c2) only.
+type c25PairPre struct {
+	c1, c2 uint64
+	sat    bool
+	ppf    float64    // RN(1 - RN(c1/c2)): IEEE-754 division and subtraction (exactly specified operations)
+	ppfB   *big.Float // the same, exact
+	da     *big.Float // (a - ppf)/ppf with a = (c2-c1)/c2 exact: relative offset of the real 1-c from the f64 one
+}
 
-	// f64 pipeline
-	cf, _ := new(big.Rat).SetFrac(new(big.Int).SetUint64(c1), new(big.Int).SetUint64(c2)).Float64() // RN(c1/c2)
-	ppf := c25Nearest64(c25F().Sub(c25F().SetInt64(1), c25F().SetFloat64(cf)))                      // RN(1-c_f)
-	thf, _ := new(big.Rat).SetFrac64(1, int64(n)).Float64()                                          // RN(1/n)
-	var y *big.Float
-	if ppf == 0 {
-		y = c25F()
-	} else {
-		r, ok2 := c25Root(c25F().SetFloat64(ppf), n)
-		o.rootOK = o.rootOK && ok2
-		// th_f = (1+d)/n exactly, d = th_f*n - 1;  pp^th_f = r * exp(d ln r) = r (1 + e + e^2/2), e = d ln r
-		d := c25F().Mul(c25F().SetFloat64(thf), c25F().SetInt64(int64(n)))
-		d.Sub(d, c25F().SetInt64(1))
-		r64, _ := r.Float64()
-		e := c25F().Mul(d, c25F().SetFloat64(math.Log(r64))) // |e| < 2^-50: ln r only needs ~40 correct bits
-		corr := c25F().Mul(e, e)
-		corr.Quo(corr, c25F().SetInt64(2))
-		corr.Add(corr, e)
-		corr.Add(corr, c25F().SetInt64(1))
-		y = c25F().Mul(r, corr)
+func c25Pre(c1, c2 uint64) c25PairPre {
+	pp := c25PairPre{c1: c1, c2: c2, sat: c1 == c2}
+	if pp.sat {
+		return pp
 	}
-	z0 := c25Nearest64(y)
-	// hard case: distance of y to the midpoint between z0 and its neighbour relative to ulp
-	if z0 > 0 {
-		up, dn := math.Nextafter(z0, 2), math.Nextafter(z0, -1)
-		for _, nb := range []float64{up, dn} {
-			mid := c25F().Add(c25F().SetFloat64(z0), c25F().SetFloat64(nb))
-			mid.Quo(mid, c25F().SetInt64(2))
-			dist := c25F().Sub(y, mid)
-			ulp := c25F().SetFloat64(math.Abs(nb - z0))
-			if dist.Sign() == 0 || dist.MantExp(nil)-ulp.MantExp(nil) < -20 {
-				o.hardCase = true
-			}
+	cf := float64(c1) / float64(c2)
+	// cross-check of the hardware division against math/big (harness invariant)
+	if chk, _ := new(big.Rat).SetFrac(new(big.Int).SetUint64(c1), new(big.Int).SetUint64(c2)).Float64(); chk != cf {
+		panic("harness: float64 division is not correctly rounded?")
+	}
+	pp.ppf = 1 - cf
+	pp.ppfB = c25F().SetFloat64(pp.ppf)
+	a := c25F().Quo(c25F().SetUint64(c2-c1), c25F().SetUint64(c2))
+	pp.da = c25F().Quo(c25F().Sub(a, pp.ppfB), pp.ppfB)
+	return pp
+}
+
+type c25Oracle struct {
+	trueT    *big.Int // floor of the real-number formula
+	t0       *big.Int // f64 pipeline with the correctly rounded pow
+	z0       float64
+	hardCase bool // y is within 2^-20 ulp of a rounding boundary: the correctly rounded z is not certain
+}
+
+// c25Expect builds the oracle for a non-saturating pair and n >= 1.
+func (sc *c25Scratch) expect(pp *c25PairPre, n int) c25Oracle {
+	var o c25Oracle
+	if !sc.root(pp.ppfB, n) {
+		panic(fmt.Sprintf("harness: n-th root did not converge for %d/%d n=%d", pp.c1, pp.c2, n))
+	}
+	r := sc.x
+	// real-number formula: a^(1/n) = r (1+da)^(1/n) = r (1 + da/n - (n-1) da^2/(2 n^2) + O(da^3)), |da| < 2^-44
+	sc.nf.SetInt64(int64(n))
+	sc.t1.Quo(pp.da, sc.nf)                  // da/n
+	sc.t2.Mul(sc.t1, sc.t1)                  // da^2/n^2
+	sc.t2.Mul(sc.t2, sc.den.SetInt64(int64(n-1)))
+	sc.t2.Quo(sc.t2, sc.den.SetInt64(2))
+	sc.tr.Sub(sc.t1, sc.t2)
+	sc.tr.Add(sc.tr, sc.one)
+	sc.tr.Mul(sc.tr, r)
+	o.trueT = c25Floor128(sc.t1.Sub(sc.one, sc.tr))
+	// f64 pipeline: th_f = RN(1/n) = (1+d)/n exactly, d = th_f*n - 1;  pp^th_f = r exp(d ln r) = r (1 + e + e^2/2), e = d ln r
+	thf := 1 / float64(n)
+	sc.t1.SetFloat64(thf)
+	sc.t1.Mul(sc.t1, sc.nf)
+	sc.t1.Sub(sc.t1, sc.one) // d, exact
+	r64, _ := r.Float64()
+	sc.t2.SetFloat64(math.Log(r64)) // |e| < 2^-50: ln r only needs ~40 correct bits
+	sc.t1.Mul(sc.t1, sc.t2)         // e
+	sc.t2.Mul(sc.t1, sc.t1)
+	sc.t2.Quo(sc.t2, sc.den.SetInt64(2))
+	sc.t2.Add(sc.t2, sc.t1)
+	sc.t2.Add(sc.t2, sc.one)
+	sc.y.Mul(r, sc.t2)
+	o.z0, _ = sc.y.Float64() // nearest, ties to even
+	// hard case: y within 2^-20 ulp of the midpoint to a neighbouring float
+	for _, nb := range []float64{math.Nextafter(o.z0, 2), math.Nextafter(o.z0, -1)} {
+		sc.t1.SetFloat64(o.z0)
+		sc.t2.SetFloat64(nb)
+		sc.t1.Add(sc.t1, sc.t2)
+		sc.t1.Quo(sc.t1, sc.den.SetInt64(2)) // midpoint, exact
+		sc.t1.Sub(sc.y, sc.t1)
+		sc.t2.SetFloat64(math.Abs(nb - o.z0))
+		if sc.t1.Sign() == 0 || sc.t1.MantExp(nil)-sc.t2.MantExp(nil) < -20 {
+			o.hardCase = true
 		}
 	}
-	o.cand = map[string]int{}
-	z := z0
-	zs := []float64{z0}
-	js := []int{0}
-	u, dwn := z0, z0
+	o.t0 = c25Floor128f(1 - o.z0) // RN(1-z) is an exactly specified IEEE operation
+	return o
+}
+
+// c25Offset finds the smallest |j| <= c25MaxJ such that the pipeline with z = z0 + j ulp gives T.
+func c25Offset(o *c25Oracle, T *big.Int) (int, bool) {
+	if T.Cmp(o.t0) == 0 {
+		return 0, true
+	}
+	u, d := o.z0, o.z0
 	for j := 1; j <= c25MaxJ; j++ {
 		u = math.Nextafter(u, 2)
-		dwn = math.Nextafter(dwn, -1)
-		zs = append(zs, u, dwn)
-		js = append(js, j, -j)
-	}
-	_ = z
-	for i, zz := range zs {
-		if zz < 0 || zz > 1 {
-			continue
+		d = math.Nextafter(d, -1)
+		if u <= 1 && T.Cmp(c25Floor128f(1-u)) == 0 {
+			return j, true
 		}
-		p := c25Nearest64(c25F().Sub(c25F().SetInt64(1), c25F().SetFloat64(zz))) // RN(1-z)
-		t := c25Floor128(c25F().SetFloat64(p))
-		k := t.String()
-		if old, ok := o.cand[k]; !ok || c25Abs(js[i]) < c25Abs(old) {
-			o.cand[k] = js[i]
+		if d >= 0 && T.Cmp(c25Floor128f(1-d)) == 0 {
+			return -j, true
 		}
 	}
-	return o
+	return 0, false
 }
 
 func c25Abs(x int) int {
@@ -199,8 +232,6 @@ func c25U128(u *scale.Uint128) *big.Int {
 	v.Lsh(v, 64)
 	return v.Or(v, new(big.Int).SetUint64(u.Lower))
 }
-
-type c25Pair struct{ c1, c2 uint64 }
 
 type c25Case struct {
 	C1   uint64 `json:"c1"`
@@ -218,12 +249,23 @@ type c25Tally struct {
 	maxErr   int // max bit length of |T - trueT|
 	maxErrAt c25Case
 	samples  []c25Case
+	sc       *c25Scratch
 }
 
 var (
 	c25Mu  sync.Mutex
 	c25Tot = c25Tally{outcomes: map[string]int64{}}
 )
+
+func c25Less(x, y c25Case) bool {
+	if x.N != y.N {
+		return x.N < y.N
+	}
+	if x.C2 != y.C2 {
+		return x.C2 < y.C2
+	}
+	return x.C1 < y.C1
+}
 
 func (t *c25Tally) merge() {
 	c25Mu.Lock()
@@ -233,27 +275,22 @@ func (t *c25Tally) merge() {
 		c25Tot.outcomes[k] += n
 	}
 	// deterministic under any worker interleaving: largest error, ties by (n, c2, c1)
-	less := func(x, y c25Case) bool {
-		if x.N != y.N {
-			return x.N < y.N
-		}
-		if x.C2 != y.C2 {
-			return x.C2 < y.C2
-		}
-		return x.C1 < y.C1
-	}
-	if t.maxErr > c25Tot.maxErr || (t.maxErr == c25Tot.maxErr && t.maxErr > 0 && less(t.maxErrAt, c25Tot.maxErrAt)) {
+	if t.maxErr > c25Tot.maxErr || (t.maxErr == c25Tot.maxErr && t.maxErr > 0 && c25Less(t.maxErrAt, c25Tot.maxErrAt)) {
 		c25Tot.maxErr, c25Tot.maxErrAt = t.maxErr, t.maxErrAt
 	}
 	c25Tot.samples = append(c25Tot.samples, t.samples...)
-	sort.Slice(c25Tot.samples, func(i, j int) bool { return less(c25Tot.samples[i], c25Tot.samples[j]) })
+	sort.Slice(c25Tot.samples, func(i, j int) bool { return c25Less(c25Tot.samples[i], c25Tot.samples[j]) })
 	if len(c25Tot.samples) > 4 {
 		c25Tot.samples = c25Tot.samples[:4]
 	}
 }
 
+var c25OffsetName = map[int]string{0: "f64-pipeline:pow-offset=+0-ulp", 1: "f64-pipeline:pow-offset=+1-ulp", -1: "f64-pipeline:pow-offset=-1-ulp",
+	2: "f64-pipeline:pow-offset=+2-ulp", -2: "f64-pipeline:pow-offset=-2-ulp"}
+
 // c25Eval runs the implementation on one element and judges T0-T3; returns the threshold (nil on violation of T0).
-func c25Eval(r *verifmc.Report, tl *c25Tally, c1, c2 uint64, n int) *big.Int {
+func c25Eval(r *verifmc.Report, tl *c25Tally, pp *c25PairPre, n int) *big.Int {
+	c1, c2 := pp.c1, pp.c2
 	cs := c25Case{C1: c1, C2: c2, N: n}
 	var got *scale.Uint128
 	var err error
@@ -271,15 +308,9 @@ func c25Eval(r *verifmc.Report, tl *c25Tally, c1, c2 uint64, n int) *big.Int {
 		return nil
 	}
 	T := c25U128(got)
-	cs.Got = fmt.Sprintf("%032x", T)
-	o := c25Expect(c1, c2, n)
-	if !o.rootOK {
-		panic(fmt.Sprintf("harness: n-th root self-check failed for %d/%d n=%d", c1, c2, n))
-	}
-	if o.saturate {
-		max := new(big.Int).Sub(c25Two128, big.NewInt(1))
-		if T.Cmp(max) != 0 {
-			cs.Want = fmt.Sprintf("%032x", max)
+	if pp.sat {
+		if T.Cmp(c25Max128) != 0 {
+			cs.Got, cs.Want = fmt.Sprintf("%032x", T), fmt.Sprintf("%032x", c25Max128)
 			tl.outcomes["BAD:c=1-not-saturated"]++
 			r.Violate("threshold:c=1-not-saturated", fmt.Sprintf("CalculateThreshold(%d,%d,%d) = %s, want 2^128-1", c1, c2, n, cs.Got), cs)
 		} else {
@@ -287,23 +318,25 @@ func c25Eval(r *verifmc.Report, tl *c25Tally, c1, c2 uint64, n int) *big.Int {
 		}
 		return T
 	}
+	o := tl.sc.expect(pp, n)
 	diff := new(big.Int).Sub(T, o.trueT)
 	diff.Abs(diff)
 	if bl := diff.BitLen(); bl > tl.maxErr {
-		tl.maxErr, tl.maxErrAt = bl, c25Case{C1: c1, C2: c2, N: n, Got: cs.Got, Want: fmt.Sprintf("%032x", o.trueT), Note: "largest |T - real formula|"}
+		tl.maxErr, tl.maxErrAt = bl, c25Case{C1: c1, C2: c2, N: n, Got: fmt.Sprintf("%032x", T), Want: fmt.Sprintf("%032x", o.trueT), Note: "largest |T - real formula|"}
 	}
 	within := diff.BitLen() <= 78 // |diff| < 2^78 = 2^128 * 2^-50
-	j, ok := o.cand[T.String()]
+	j, ok := c25Offset(&o, T)
 	switch {
 	case ok && c25Abs(j) <= 2:
-		tl.outcomes[fmt.Sprintf("f64-pipeline:pow-offset=%+d-ulp", j)]++
+		tl.outcomes[c25OffsetName[j]]++
 		if j != 0 {
 			if o.hardCase {
 				tl.outcomes["pow-differs-from-correctly-rounded:hard-case"]++
 			} else {
 				tl.outcomes["pow-differs-from-correctly-rounded"]++
 				if len(tl.samples) < 4 { // elements are visited in a fixed order inside a block
-					tl.samples = append(tl.samples, c25Case{C1: c1, C2: c2, N: n, Got: cs.Got, Note: fmt.Sprintf("math.Pow result is %+d ulp from the correctly rounded power (counted, within the pinned last-ulp tolerance)", j)})
+					tl.samples = append(tl.samples, c25Case{C1: c1, C2: c2, N: n, Got: fmt.Sprintf("%032x", T), Want: fmt.Sprintf("%032x", o.t0),
+						Note: fmt.Sprintf("math.Pow result is %+d ulp from the correctly rounded power (counted, within the pinned last-ulp tolerance)", j)})
 				}
 			}
 		}
@@ -318,7 +351,9 @@ func c25Eval(r *verifmc.Report, tl *c25Tally, c1, c2 uint64, n int) *big.Int {
 		if ok {
 			class += fmt.Sprintf(":pow-off-by-%d-ulp", c25Abs(j))
 		}
-		cs.Want = fmt.Sprintf("%032x (real-number formula; f64 pipeline candidates differ from it by last ulps)", o.trueT)
+		cs.Got = fmt.Sprintf("%032x", T)
+		cs.Want = fmt.Sprintf("%032x", o.t0)
+		cs.Note = fmt.Sprintf("want = f64 pipeline with the correctly rounded pow; real-number formula = %032x", o.trueT)
 		tl.outcomes["BAD:"+class]++
 		r.Violate("threshold:differs-from-f64-pipeline:"+class,
 			fmt.Sprintf("CalculateThreshold(%d,%d,%d) = %s is none of the values the f64 pipeline can produce with a pow within 2 ulp; |T-real| has %d bits", c1, c2, n, cs.Got, diff.BitLen()), cs)
@@ -328,11 +363,11 @@ func c25Eval(r *verifmc.Report, tl *c25Tally, c1, c2 uint64, n int) *big.Int {
 
 func c25Thresholds(t *testing.T, r *verifmc.Report) {
 	maxC := verifmc.Pick(64, 256)
-	maxN := verifmc.Pick(128, 1024)
-	var pairs []c25Pair
+	maxN := verifmc.Pick(256, 1024)
+	var pairs []c25PairPre
 	for c2 := uint64(1); c2 <= uint64(maxC); c2++ {
 		for c1 := uint64(1); c1 <= c2; c1++ {
-			pairs = append(pairs, c25Pair{c1, c2})
+			pairs = append(pairs, c25Pre(c1, c2))
 		}
 	}
 	// exact rational order for the monotonicity check
@@ -348,30 +383,51 @@ func c25Thresholds(t *testing.T, r *verifmc.Report) {
 	// sanity of the oracle against a constant that does not come from this harness: the value
 	// pinned by the repo's own test for (1,2,3) (0x34d00ad6148e1800 << 64) must be a j=0 candidate
 	{
-		o := c25Expect(1, 2, 3)
+		sc := c25NewScratch()
+		pre := c25Pre(1, 2)
+		o := sc.expect(&pre, 3)
 		want := new(big.Int).Lsh(new(big.Int).SetUint64(0x34d00ad6148e1800), 64)
-		if j, ok := o.cand[want.String()]; !ok || j != 0 {
-			t.Fatalf("oracle sanity: (1,2,3) candidates %v do not contain %x at offset 0", o.cand, want)
+		if o.t0.Cmp(want) != 0 {
+			t.Fatalf("oracle sanity: (1,2,3) gives %x, the repo's pinned vector is %x", o.t0, want)
 		}
 		// and the real-number value 2^128(1-2^(-1/3)) = 0.20629947401590026...
 		f, _ := new(big.Float).Quo(new(big.Float).SetInt(o.trueT), new(big.Float).SetInt(c25Two128)).Float64()
 		if math.Abs(f-0.2062994740159002) > 1e-15 {
 			t.Fatalf("oracle sanity: real formula gives %v", f)
 		}
+		// the second-order expansion used for the real formula against a direct 512-bit root of (c2-c1)/c2
+		for _, e := range [][3]uint64{{254, 255, 2}, {1, 3, 7}, {200, 201, 1000}, {1, 256, 10000}} {
+			pre := c25Pre(e[0], e[1])
+			o := sc.expect(&pre, int(e[2]))
+			a := c25F().Quo(c25F().SetUint64(e[1]-e[0]), c25F().SetUint64(e[1]))
+			sc2 := c25NewScratch()
+			if !sc2.root(a, int(e[2])) {
+				t.Fatal("oracle sanity: direct root did not converge")
+			}
+			direct := c25Floor128(c25F().Sub(c25F().SetInt64(1), sc2.x))
+			if d := new(big.Int).Sub(direct, o.trueT); d.CmpAbs(big.NewInt(4)) > 0 {
+				t.Fatalf("oracle sanity: real formula via expansion %x vs direct %x for %v", o.trueT, direct, e)
+			}
+		}
 	}
 
 	const block = 8
 	nblocks := (len(ns) + block - 1) / block
 	verifmc.ParallelFor(r, nblocks, func(bi int) {
-		tl := &c25Tally{outcomes: map[string]int64{}}
+		tl := &c25Tally{outcomes: map[string]int64{}, sc: c25NewScratch()}
 		defer tl.merge()
 		var prev []*big.Int
 		lo, hi := bi*block, min((bi+1)*block, len(ns))
 		for ni := lo; ni < hi; ni++ {
 			n := ns[ni]
+			if r.Expired() {
+				r.Capped(fmt.Sprintf("deadline: threshold row n=%d not executed", n))
+				return
+			}
 			cur := make([]*big.Int, len(pairs))
-			for pi, pr := range pairs {
-				cur[pi] = c25Eval(r, tl, pr.c1, pr.c2, n)
+			for pi := range pairs {
+				pr := &pairs[pi]
+				cur[pi] = c25Eval(r, tl, pr, n)
 				r.Distinct(string([]byte{byte(pr.c1 - 1), byte(pr.c2 - 1), byte(n), byte(n >> 8)}))
 			}
 			// T4 monotone in c (pairs are in non-decreasing c order)
@@ -554,7 +610,7 @@ func c25Secondary(t *testing.T, r *verifmc.Report) {
 func TestVerif_C25(t *testing.T) {
 	r := verifmc.NewReport("C25", "babe-lottery", "exploration")
 	defer r.Write()
-	r.Rule = "thresholds: every (c1,c2) with 1<=c1<=c2<=" + fmt.Sprint(verifmc.Pick(64, 256)) + " x every n in 1.." + fmt.Sprint(verifmc.Pick(128, 1024)) + " and 10000, each compared with the f64 pipeline re-derived in math/big (512-bit n-th root, pow tolerance 2 ulp), with the real-number formula, saturation at c=1, and monotonicity in c along the exact rational order for every n; secondary author: 64 randomness patterns x 7 slots x n in 1.." + fmt.Sprint(verifmc.Pick(17, 1024)) + ", 2^31, 2^32-1 against BLAKE2b-256/big-endian/mod n. Non-trivial = every element (all distinct inputs)."
+	r.Rule = "thresholds: every (c1,c2) with 1<=c1<=c2<=" + fmt.Sprint(verifmc.Pick(64, 256)) + " x every n in 1.." + fmt.Sprint(verifmc.Pick(256, 1024)) + " and 10000, each compared with the f64 pipeline re-derived in math/big (512-bit n-th root, pow tolerance 2 ulp), with the real-number formula, saturation at c=1, and monotonicity in c along the exact rational order for every n; secondary author: 64 randomness patterns x 7 slots x n in 1.." + fmt.Sprint(verifmc.Pick(17, 1024)) + ", 2^31, 2^32-1 against BLAKE2b-256/big-endian/mod n. Non-trivial = every element (all distinct inputs)."
 	r.Assumption("bit-exact agreement with Rust's powf cannot be established (no Rust libm here): 'computed as Substrate computes it' is checked up to a 2-ulp tolerance on the pow result; every other step of the f64 pipeline is checked exactly")
 	r.Assumption("the secondary-author oracle uses x/crypto/blake2b as the BLAKE2b-256 primitive (checked against the empty-input known answer)")
 	c25Thresholds(t, r)
